@@ -117,6 +117,7 @@ def run(idx: ProgramIndex, rep: Report, tier: str, selftest: bool = True):
 
     # helper -> guarded at every call site? (memoised)
     helper_cache: Dict[Tuple[str, str], bool] = {}
+    attr_refs: Dict[str, int] = {}
 
     def guarded_locally(fn: FunctionInfo, stmt: ast.AST, obj: str, channel: str, region_channels: Set[str]) -> Optional[str]:
         cfg = CFG(fn)
@@ -201,11 +202,12 @@ def run(idx: ProgramIndex, rep: Report, tier: str, selftest: bool = True):
             return None
         # the helper must be reachable ONLY through these self.<helper>(...) calls: any other reference to the name
         # (another receiver, a bound method passed as a closure, a subclass override) voids the argument
-        refs = 0
-        for g in idx.functions:
-            for n in ast.walk(g.node) if g.parent is None else []:
-                if isinstance(n, ast.Attribute) and n.attr == fn.name:
-                    refs += 1
+        if not attr_refs:
+            for m_ in idx.modules.values():
+                for n in ast.walk(m_.tree):
+                    if isinstance(n, ast.Attribute):
+                        attr_refs[n.attr] = attr_refs.get(n.attr, 0) + 1
+        refs = attr_refs.get(fn.name, 0)
         n_defs = sum(1 for k in idx.classes.values() if fn.name in k.methods)
         if refs != len(sites) or n_defs != 1:
             return None
